@@ -1,1 +1,164 @@
-(* placeholder *)
+(* Lemmas about Paths.v (C14): related_path is a right inverse of rustc's relative-path resolution
+   whenever the target's item path is not a prefix of the current module path. *)
+From Coq Require Import String List Bool Arith Lia.
+From PVBld Require Import Generated.Keywords Names Paths Proofs.NamesP.
+Import ListNotations.
+Open Scope string_scope.
+Open Scope list_scope.
+
+Lemma list_eqb_eq a b : list_eqb a b = true <-> a = b.
+Proof.
+  revert b. induction a as [|x a IH]; intros [|y b]; cbn; split; intros H; try reflexivity; try discriminate.
+  - apply andb_prop in H. destruct H as [H1 H2]. apply String.eqb_eq in H1. apply IH in H2. now subst.
+  - injection H as -> ->. rewrite String.eqb_refl. cbn. now apply IH.
+Qed.
+
+(* Display never produces the token `super` *)
+Lemma display_not_super s : (display s =? "super") = false.
+Proof.
+  apply String.eqb_neq. intros H. unfold display in H.
+  destruct (is_path_segment_keyword s) eqn:K.
+  - apply mem_In in K. cbn in K. destruct K as [K|[K|[K|[K|[]]]]]; subst; discriminate.
+  - destruct (mem s keywords_set) eqn:K2.
+    + discriminate.
+    + subst. discriminate.
+Qed.
+
+Lemma no_super_in_display l : existsb (fun s => s =? "super") (map display l) = false.
+Proof. induction l as [|x l IH]; cbn; [reflexivity|]. now rewrite display_not_super, IH. Qed.
+
+Lemma strip_supers_display cur l : strip_supers cur (map display l) = Some (cur, map display l).
+Proof. destruct l as [|x l]; cbn; [reflexivity|]. now rewrite display_not_super. Qed.
+
+Lemma removelast_app_one {A} (l : list A) x : removelast (l ++ [x]) = l.
+Proof. rewrite removelast_app; [cbn; now rewrite app_nil_r|discriminate]. Qed.
+
+Lemma strip_supers_super cur x r : strip_supers (cur ++ [x]) ("super" :: r) = strip_supers cur r.
+Proof.
+  cbn [strip_supers]. rewrite String.eqb_refl.
+  destruct (cur ++ [x]) eqn:E; [destruct cur; discriminate|].
+  rewrite <- E. now rewrite removelast_app_one.
+Qed.
+
+(* walking up k levels from (pre ++ suf) where length suf = k *)
+Lemma strip_supers_repeat pre suf rest :
+  strip_supers (pre ++ suf) (repeat "super" (length suf) ++ map display rest) = Some (pre, map display rest).
+Proof.
+  induction suf as [|x suf IH] using rev_ind.
+  - cbn [length repeat app]. rewrite app_nil_r. apply strip_supers_display.
+  - rewrite app_length. cbn [length]. rewrite Nat.add_1_r. cbn [repeat app].
+    rewrite app_assoc. rewrite strip_supers_super. exact IH.
+Qed.
+
+Lemma common_prefix_split a b :
+  let i := common_prefix_len a b in
+  firstn i a = firstn i b /\
+  (forall x y a' b', skipn i a = x :: a' -> skipn i b = y :: b' -> x <> y).
+Proof.
+  revert b. induction a as [|x a IH]; intros [|y b]; cbn; try (split; [reflexivity|intros; discriminate]).
+  destruct (x =? y) eqn:E.
+  - apply String.eqb_eq in E. subst. cbn. destruct (IH b) as [H1 H2]. split; [now rewrite H1|exact H2].
+  - cbn. split; [reflexivity|]. intros ? ? ? ? H1 H2. injection H1 as <- _. injection H2 as <- _.
+    now apply String.eqb_neq.
+Qed.
+
+Lemma common_prefix_le a b : common_prefix_len a b <= length a /\ common_prefix_len a b <= length b.
+Proof.
+  revert b. induction a as [|x a IH]; intros [|y b]; cbn; try lia.
+  destruct (x =? y); cbn; [|lia]. destruct (IH b). lia.
+Qed.
+
+Lemma is_prefix_skipn p q :
+  is_prefix p q = false -> skipn (common_prefix_len q p) p <> [].
+Proof.
+  revert q. induction p as [|x p IH]; intros [|y q]; cbn; try discriminate.
+  - intros H. rewrite String.eqb_sym. destruct (x =? y) eqn:E; cbn [andb skipn] in *.
+    + now apply IH.
+    + discriminate.
+Qed.
+
+Lemma last_opt_map_display l : last_opt (map display l) = option_map display (last_opt l).
+Proof.
+  induction l as [|x [|y l] IH]; cbn; try reflexivity. exact IH.
+Qed.
+
+Lemma last_opt_skipn i (l : list string) : skipn i l <> [] -> last_opt (skipn i l) = last_opt l.
+Proof.
+  revert i. induction l as [|x l IH]; intros [|i]; cbn [skipn]; try tauto.
+  intros H. rewrite (IH i H). destruct l; [destruct i; cbn in H; tauto|]. reflexivity.
+Qed.
+
+Lemma last_opt_some l : l <> [] -> exists x, last_opt l = Some x /\ l = removelast l ++ [x].
+Proof.
+  induction l as [|a [|b l] IH]; [tauto| |]; intros _.
+  - exists a. split; reflexivity.
+  - destruct IH as [x [H1 H2]]; [discriminate|]. exists x. split; [exact H1|].
+    cbn [removelast] in *. cbn [app]. now rewrite <- H2.
+Qed.
+
+Lemma removelast_map {A B} (f : A -> B) l : removelast (map f l) = map f (removelast l).
+Proof. induction l as [|a [|b l] IH]; cbn in *; try reflexivity. now rewrite IH. Qed.
+
+Lemma removelast_skipn i (l : list string) :
+  skipn i l <> [] -> firstn i l ++ removelast (skipn i l) = removelast l.
+Proof.
+  revert i. induction l as [|x l IH]; intros [|i]; cbn [skipn firstn app]; try tauto.
+  intros H. rewrite (IH i H). destruct l; [destruct i; cbn in H; tauto|]. reflexivity.
+Qed.
+
+(* the theorem: the emitted text, read by rustc inside module (map display p1), names the target *)
+Lemma related_path_resolves p1 p2 :
+  is_prefix p2 p1 = false ->
+  exists r, related_path p1 p2 = Some r /\
+            resolve_item (map display p1) r =
+              option_map (fun it => (map display (removelast p2), display it)) (last_opt p2).
+Proof.
+  intros NP. unfold related_path.
+  destruct (list_eqb p1 p2) eqn:E.
+  - apply list_eqb_eq in E. subst. exfalso.
+    assert (forall l, is_prefix l l = true) as R.
+    { induction l; cbn; [reflexivity|]. now rewrite String.eqb_refl. }
+    rewrite R in NP. discriminate.
+  - eexists. split; [reflexivity|].
+    set (i := common_prefix_len p1 p2).
+    pose proof (common_prefix_split p1 p2) as [F _]. fold i in F.
+    pose proof (common_prefix_le p1 p2) as [L1 L2]. fold i in L1, L2.
+    pose proof (is_prefix_skipn p2 p1 NP) as NE. fold i in NE.
+    assert (Hp1 : map display p1 = map display (firstn i p1) ++ map display (skipn i p1)).
+    { rewrite <- map_app. now rewrite firstn_skipn. }
+    assert (Hlen : length p1 - i = length (map display (skipn i p1))).
+    { rewrite map_length, skipn_length. reflexivity. }
+    unfold resolve_item. rewrite Hp1, Hlen. rewrite strip_supers_repeat.
+    rewrite no_super_in_display. rewrite last_opt_map_display.
+    rewrite (last_opt_skipn i p2 NE).
+    destruct (last_opt p2) eqn:LP; cbn [option_map]; [|reflexivity].
+    f_equal. f_equal.
+    rewrite removelast_map. rewrite <- map_app. f_equal.
+    rewrite F. now apply removelast_skipn.
+Qed.
+
+(* and it is wrong exactly in the remaining case (finding F-14d): p2 a prefix of p1 *)
+Lemma related_path_eq_refuted :
+  exists p1 p2, p1 = p2 /\
+    related_path p1 p2 = Some ["b"] /\
+    resolve_item (map display p1) ["b"] = Some (["a"; "b"], "b") /\
+    (map display (removelast p2), display "b") = (["a"], "b").
+Proof. exists ["a"; "b"], ["a"; "b"]. repeat split. Qed.
+
+Lemma related_path_prefix_refuted :
+  exists p1 p2, is_prefix p2 p1 = true /\ p1 <> p2 /\
+    related_path p1 p2 = Some ["super"] /\
+    resolve_item (map display p1) ["super"] = None.
+Proof. exists ["a"; "b"; "c"], ["a"; "b"]. repeat split. discriminate. Qed.
+
+(* non-vacuity: keyword segments, several levels up and down *)
+Example related_path_nonvacuous :
+  related_path ["x"; "type"; "z"] ["x"; "self"; "Foo"] = Some ["super"; "super"; "self_"; "Foo"] /\
+  is_prefix ["x"; "self"; "Foo"] ["x"; "type"; "z"] = false /\
+  resolve_item (map display ["x"; "type"; "z"]) ["super"; "super"; "self_"; "Foo"] = Some (["x"; "self_"], "Foo").
+Proof. repeat split. Qed.
+
+(* workspace resolver: another crate -> absolute path spelling every segment through Display *)
+Lemma wrelated_other_crate c1 r1 c2 r2 :
+  c1 <> c2 -> wrelated_path (c1 :: r1) (c2 :: r2) = Some (WAbs (map display (c2 :: r2))).
+Proof. intros N. cbn. apply not_eq_sym in N. apply String.eqb_neq in N. now rewrite N. Qed.
